@@ -7,7 +7,7 @@ META = {
             "M+suffix: a shape followed by 1..3 symbolic surplus bytes; streams of one and two command/response "
             "pairs cut at every point; S(T,n) for short n including the empty input. Reference: RefDec.",
     "bounds": {
-        "quick": "minimal shapes of 10 seed-rotated command codes + core, every cut; every structure type at lengths 0..2 and m-1",
+        "quick": "minimal shapes of 12 seed-rotated command codes + core (incl. the two commands carrying a command code as data), every cut, surpluses of 1-3, 65 and 300 bytes; one-pair streams and two-pair streams with different codes at every cut; every structure type at lengths 0..2 and m-1",
         "thorough": "all command codes, two-pair streams, every structure type at every length below m",
     },
     "outside": "shapes the generator does not produce; suffixes longer than 3 bytes",
